@@ -47,6 +47,9 @@ import JanetModel.Compile.SeqFnBody
 import JanetModel.Compile.SeqTailIf
 import JanetModel.Compile.SeqErrAll
 import JanetModel.Compile.SeqErrIfCond
+import JanetModel.Compile.SeqWhileAll
+import JanetModel.Compile.SeqNoBrkSem
+import JanetModel.Compile.SeqErrTail
 namespace JanetModel.Props.C02
 open JanetModel.Emit
 
@@ -631,6 +634,43 @@ theorem compile_correct_call_error (p : Program) (f0 : Frame) (rest : List Frame
         hm hcc hsa happ henv
     exact ⟨hsemE, e1, e2, mx, more, seg, segm, b1, b2, b3, b4, b5, vm⟩
 
+/-- **`while` without `break`**: one loop `(while c e₁ … eₙ)` whose condition (`CondOK`: literal, symbol, call or `if`) and body
+    statements are forms of the fragment `TF G b`, value used or dropped, in any block or function scope.  `janetc_while`: a block
+    scope flagged as a loop; the condition; a constant falsy condition ⇒ no loop code at all; a constant truthy condition ⇒ an
+    infinite loop (then `Lang/Sem` cannot return a value: the fragment has no `break` — `tf_evalSeq_nobrk` — so this case is
+    contradictory); otherwise `JUMP_IF_NOT cond` patched to the end, the body (EVERY statement dropped and freed), no closure was
+    created in the loop (the fragment has no `fn`: the loop-as-function rewrite is not taken), `JUMP` BACK to the loop start
+    (negative offset), the break-placeholder rewrite over the loop's code (the identity: the fragment never emits the placeholder,
+    `tf_nobrk`, compile-only), scope popped; result the constant nil.  `Lang/Sem`: `whileLoop` — each iteration evaluates the
+    condition in the loop's environment and the body in the condition's environment and discards the bindings.  The VM run is by
+    induction on the fuel of `whileLoop`: the loop's code is compiled once and its correctness statements are quantified over all
+    configurations, so they are used again at every iteration; the invariant at the loop head is the run-time invariant for the
+    names visible outside the loop (their registers are untouched, the boxes only grow).  Conclusion `Correct2 … opts.drop …`
+    (value nil, environment unchanged, invariants re-established, registers allocated at entry untouched).
+    `Compile/SeqWhileDef.lean`, `SeqWhileBody.lean`, `SeqWhile.lean` (`while_jump_core`), `SeqWhileAll.lean` (`while_core`),
+    `SeqNoBrk.lean`, `SeqNoBrkSem.lean`.  Nested loops and `break` are not covered (the loop is not a constructor of the fragment). -/
+theorem compile_correct_while (p : Program) (f0 : Frame) (rest : List Frame) (V : Array Value) (P : List JanetModel.Emit.KConst)
+    (hP : P.length < 65536)
+    (hK : ∀ i, i < P.length → (p.defs.getD f0.defIdx default).consts.getD i .nil = litOf V (P.getD i .nil))
+    (FF : FloatFacts) (G : String → Prop) (b : Bool)
+    (fuel : Nat) (cnd : Expr) (body : List Expr) (pp : Pos) (opts : Fopts) (c c' : CState) (slot : JSlot) (sc : Scope) (rs : List Scope)
+    (pool : List JanetModel.Emit.KConst) (ps : List (List JanetModel.Emit.KConst)) (n : Nat) (cur : Pos) (env env' : Env) (s s' : SS) (v : Value)
+    (ht : opts.tail = false) (hh : opts.hint = none)
+    (hs : c.scopes = sc :: rs) (hp : c.pools = pool :: ps) (hl : c.lim ≤ 240) (hm : c.map.length = c.buf.length)
+    (hok : CondOK cnd) (hTc : TF G b cnd) (hTb : ∀ e, e ∈ body → TF G b e)
+    (hcomp : cValue (fuel + 1) opts (.form (.sym "while" :: cnd :: body) pp) c = some (slot, c'))
+    (hsem : eval n cur env (.form (.sym "while" :: cnd :: body) pp) s = .ok (v, env') s')
+    (henv : EnvS G c.scopes env s.boxes.size sc.ra) :
+    Correct2 p f0 rest V P G opts.drop c c' slot sc rs pool ps env env' s s' v :=
+  while_core p f0 rest V P G b b fuel (tf_correct_b p f0 rest V P hP hK FF G b fuel) cnd body pp hTc hTb hok
+    (fun n cur env0 s0 v0 s1 hg => tf_evalSeq_nobrk G b n cur env0 body s0 v0 s1 hg hTb)
+    opts c c' slot sc rs pool ps n cur env env' s s' v ht hh hs hp hl hm hcomp hsem henv
+
+/-- non-vacuity: `Lang/Sem` runs a loop of the fragment to completion: `(while (next) (emit 1))` with a condition that turns falsy —
+    here a loop whose condition is false at once evaluates to nil -/
+example : (match eval 10 {} [] (.form [.sym "while", .lit (.bool false), .form [.sym "emit", .lit (.num 1)] {}] {}) {} with
+           | .ok (.nil, _) _ => true | _ => false) = true := by decide
+
 /-- **`var` declarations**: `(var x e)` with `e` in the fragment `TF G b`, in a local scope, value used or dropped (no hint).
     `janetc_var` = the value, then `namelocal` with the MUTABLE flag: never an alias — always a fresh register and a copy — and the new
     name's slot is flagged mutable; `Lang/Sem` binds a fresh box, as for `def`.  Conclusion `Correct2 … false …` (value in the result
@@ -708,6 +748,31 @@ example : TF (fun f => f = "error" ∨ f = "tuple") false
   · exact .lit _ trivial
   · exact .call "error" _ _ (by decide) (by decide) (Or.inl rfl) (fun a ha => by
       simp only [List.mem_cons, List.not_mem_nil, or_false] at ha; subst ha; exact .lit _ trivial)
+
+/-- **The error outcome of a function body** (and of a form in tail position): `fnBody` (`janetc_fn`'s body loop: every form but the
+    last dropped, the last in TAIL position) over forms of the if-free fragment `TF G false`, and `Lang/Sem.evalSeq` of the body is an
+    ERROR `.err ev epos s'` — raised in a leading statement (non-tail: `compile_correct_error`) or in the last form (tail position:
+    an operand raises, or the application raises AT THE TAILCALL, or a statement of a tail `do` …: `ErrAtT`, an induction of its
+    own, `Compile/SeqErrTail.lean`, `SeqErrTailCall.lean`; the code after the failing form — including the `RETURN` — is never
+    reached and is append-only / `max`-monotone compile-only: `tf_shapeT`, `tf_maxT`).  Then the VM, started at the body's code,
+    reaches a configuration in the world of `s'` whose next step raises `ev` at `epos` (`ErrOK`).  With `compile_correct_fn_body`:
+    a function body of the fragment returns what `Lang/Sem` returns and raises what `Lang/Sem` raises. -/
+theorem compile_correct_fn_body_error (p : Program) (f0 : Frame) (rest : List Frame) (V : Array Value) (P : List JanetModel.Emit.KConst)
+    (hP : P.length < 65536)
+    (hK : ∀ i, i < P.length → (p.defs.getD f0.defIdx default).consts.getD i .nil = litOf V (P.getD i .nil))
+    (FF : FloatFacts) (G : String → Prop)
+    (fuel : Nat) (body : List Expr) (c c' : CState) (sc : Scope) (rs : List Scope) (pool : List JanetModel.Emit.KConst)
+    (ps : List (List JanetModel.Emit.KConst)) (n : Nat) (cur : Pos) (env : Env) (s s' : SS) (ev : Value) (epos : Pos)
+    (hs : c.scopes = sc :: rs) (hp : c.pools = pool :: ps) (hl : c.lim ≤ 240) (htop : sc.top = false)
+    (hm : c.map.length = c.buf.length) (hcur : c.cur = cur) (hbody : ∀ e, e ∈ body → TF G false e)
+    (hcomp : fnBody (cValue fuel) body c = some c') (hsem : evalSeq n cur env body s = .err ev epos s')
+    (henv : EnvS G c.scopes env s.boxes.size sc.ra) :
+    ErrOK p f0 rest V P c c' rs ps env s s' ev epos :=
+  fnBody_err p f0 rest V P G false false fuel (tf_correct_b p f0 rest V P hP hK FF G false fuel)
+    (tf_err_correct_b p f0 rest V P hP hK FF G false false (tf_correct_b p f0 rest V P hP hK FF G false) fuel)
+    (tf_errT_gen p f0 rest V P hP hK FF G false false (tf_correct_b p f0 rest V P hP hK FF G false)
+      (tf_err_correct_b p f0 rest V P hP hK FF G false false (tf_correct_b p f0 rest V P hP hK FF G false)) (fun h => absurd h (by simp)) fuel)
+    body hbody c c' sc rs pool ps n cur env s s' ev epos hs hp hl htop hm hcur hcomp hsem henv
 
 /-- **Compile correctness, tail position (calls)**: a call `(f e₁ … eₙ)` of a global core function (`G f`, not `apply`, not a
     special form), operands in the fragment `TF G b` (either fragment; `hm` needed when `if` is among them), compiled with the TAIL flag in a scope that is not the top level
@@ -846,8 +911,8 @@ example : ({ tail := true } : Fopts).tail = true ∧ ({ tail := true } : Fopts).
     locals — and of boxes; the induction hypothesis must be generalised to a compile with a HINT slot, since `set` compiles its
     value with the variable as hint and calls / `if` then write the variable's register directly; with `set` in the fragment the
     n-ary call needs the side condition that no operand is a variable a later operand sets: janet reads operand registers when
-    the call is made), destructuring `def`, `while` / `break` (`.brk` is a third outcome of every form; the placeholder rewrite
-    needs "no break tag in the code of a fragment form"), `fn` / closures / upvalues (`janetc_popscope`'s `keep` reservations are
+    the call is made), destructuring `def`, `break` and nested loops (`.brk` is a third outcome of every form: an induction like the error outcome;
+    a single `while` without `break` over the fragment is `compile_correct_while`), `fn` / closures / upvalues (`janetc_popscope`'s `keep` reservations are
     modelled and compared word for word, not proved); (3) the
     top-level scope (`sc.top`: calls are never tail calls there, `def` makes globals); (4) far registers (`lim` > 0xF0: the
     `emit_*_correct` theorems cover the emit layer, not yet connected).  Every construct outside these theorems stays
